@@ -9,23 +9,34 @@
 (***************************************************************************)
 EXTENDS WebSession, Json
 
-VARIABLES hist, cfg
-gvars == <<vars, hist, cfg>>
+CONSTANTS SimMode,      \* TRUE when run with -simulate
+          StartHosts,   \* hosts the start URL may name (the hosts are interchangeable)
+          Refs          \* referrer classes of the start request: subset of {"none", "http", "https"}
 
-GInit == /\ hist = <<>>
-         /\ \E u \in URLs, ref \in {"none", "http", "https"}, login \in BOOLEAN,
+VARIABLES hist, cfg, fin
+gvars == <<vars, hist, cfg, fin>>
+
+GInit == /\ hist = <<>> /\ fin = FALSE
+         /\ \E u \in {v \in URLs : v.host \in StartHosts}, ref \in Refs, login \in BOOLEAN,
                jar0 \in SUBSET {<<h, FALSE>> : h \in Hosts} :
               /\ InitWith(u, ref, login, jar0)
               /\ cfg = [start |-> u, referer |-> ref, login |-> login, jar0 |-> {k[1] : k \in jar0}]
 
+Over == phase \in {"done", "error"} \/ (phase = "ready" /\ nsent = MaxHops)
+SimFinish == /\ SimMode /\ Over /\ ~fin /\ fin' = TRUE
+             /\ PrintT(<<"SCRIPT", ToJson([cfg |-> cfg, steps |-> hist])>>)
+             /\ UNCHANGED <<vars, hist, cfg>>
+
 GNext ==
-  \/ Start /\ UNCHANGED <<hist, cfg>>
+  \/ Start /\ UNCHANGED <<hist, cfg, fin>>
   \/ \E st \in Statuses, kind \in {"url", "missing", "bad"}, loc \in URLs, sc \in BOOLEAN :
         /\ (st \notin Redirects => kind = "missing")
         /\ (kind # "url" => loc = AnyURL)
         /\ Respond(st, kind, loc, sc)
         /\ hist' = Append(hist, [status |-> st, loc |-> kind, locurl |-> loc, setcookie |-> sc])
-        /\ UNCHANGED cfg
+        /\ UNCHANGED <<cfg, fin>>
+  \* -simulate: the finished behaviour prints its script in a last step (a trace cut by a constraint is not counted)
+  \/ SimFinish
 
 GSpec == GInit /\ [][GNext]_gvars
 
@@ -44,14 +55,13 @@ Odd(c) == (IF c.ui = "none" THEN 0 ELSE 1) + (IF c.host = "plain" THEN 0 ELSE 1)
           + (IF c.path = "p" THEN 0 ELSE 1) + (IF c.query = "none" THEN 0 ELSE 1) + (IF c.frag = "none" THEN 0 ELSE 1)
 TextCases == {c \in [ui : UIs, host : HostFs, port : PortFs, path : PathFs, query : QueryFs, frag : FragFs] : Odd(c) <= MaxOdd}
 
-TextInit == /\ hist = <<>>
+TextInit == /\ hist = <<>> /\ fin = FALSE
             /\ \E c \in TextCases : cfg = c
             /\ InitWith(AnyURL, "none", FALSE, {})
 TextSpec == TextInit /\ [][FALSE]_gvars
 EmitText == PrintT(<<"SCRIPT", ToJson(cfg)>>) /\ FALSE
 
-Over == phase \in {"done", "error"} \/ (phase = "ready" /\ nsent = MaxHops)
-Emit == IF Over
+Emit == IF Over /\ ~SimMode
         THEN PrintT(<<"SCRIPT", ToJson([cfg |-> cfg, steps |-> hist])>>) /\ FALSE
         ELSE TRUE
 =============================================================================
